@@ -6,6 +6,7 @@ use std::io::Write;
 use std::panic::{catch_unwind, AssertUnwindSafe};
 
 pub fn quiet_panics() {
+    if std::env::var("VERIF_DEBUG").is_ok() { return; }
     std::panic::set_hook(Box::new(|_| {}));
 }
 
